@@ -68,7 +68,7 @@ def lists_part(run, bulk, np):
             bulk.wtspoints(f, ids)
             txt = f.getvalue()
             if any(len(l) > 80 for l in txt.splitlines()):
-                fail("wtspoints: line longer than 80 characters", text=txt)
+                run.deviation("BulkLists (layout)", "wtspoints: line longer than 80 characters", dict(case, text=txt))
             if text_ids_small(txt, "SPOINT") != ids:
                 fail("wtspoints: the cards do not denote exactly the given ids (neutral field parse)", text=txt)
             back = bulk.rdspoints(io.StringIO(txt))
@@ -116,7 +116,7 @@ def lists_part(run, bulk, np):
                     fail("wtset/rdsets(max_length=%d): read back %r" % (ml, back), text=txt)
                 lines = txt.splitlines()
                 if ml == 72 and any(len(l.rstrip()) > 72 for l in lines):
-                    fail("wtset: line longer than 72 characters", text=txt)
+                    run.deviation("BulkLists (layout)", "wtset: line longer than 72 characters", dict(case, text=txt))
             except Exception as ex:
                 fail("wtset: raised %r" % ex)
         # TABLED1-style table of n points, both field widths
@@ -133,7 +133,7 @@ def lists_part(run, bulk, np):
                     fail("wttabled1/rdtabled1 (%d points, %d pairs per line): table read back differs" % (n, perline), text=txt, got=tab.tolist())
                 body_lines = [l for l in txt.splitlines()[1:] if l.strip() not in ("*", "")]
                 if "ENDT" not in txt or (len([l for l in body_lines if l[8:].strip() not in ("", "ENDT")]) != nl):
-                    fail("wttabled1: %d points are not laid out on %d data lines (spec TableLines)" % (n, nl), text=txt)
+                    run.deviation("BulkLists.TableLines", "wttabled1: %d points are not laid out on %d data lines" % (n, nl), dict(case, text=txt))
             except Exception as ex:
                 fail("wttabled1 (%d points): raised %r" % (n, ex))
         run.trace_validated()
